@@ -305,14 +305,32 @@ func dominatingAtoms(fi *core.FuncInfo, target ast.Node) []condAtom {
 // resolver prints expressions with single-definition locals replaced by their definitions (so rules do
 // not depend on local names) and the receiver prefix removed.
 type resolver struct {
-	fi   *core.FuncInfo
-	info *types.Info
-	rn   string
+	fi    *core.FuncInfo
+	info  *types.Info
+	rn    string
+	extra []*ast.BlockStmt             // bodies of helpers whose guards were imported
+	over  map[types.Object]ast.Expr    // caller locals standing for a helper's result
 }
 
 func (rv *resolver) def(obj types.Object) ast.Expr {
+	if e, ok := rv.over[obj]; ok {
+		return e
+	}
 	var def ast.Expr
 	n := 0
+	for _, b := range rv.extra {
+		ast.Inspect(b, func(m ast.Node) bool {
+			if as, ok := m.(*ast.AssignStmt); ok && len(as.Lhs) == len(as.Rhs) {
+				for i, l := range as.Lhs {
+					if id, ok := l.(*ast.Ident); ok && rv.info.ObjectOf(id) == obj {
+						def = as.Rhs[i]
+						n++
+					}
+				}
+			}
+			return true
+		})
+	}
 	ast.Inspect(rv.fi.Decl.Body, func(m ast.Node) bool {
 		if as, ok := m.(*ast.AssignStmt); ok && len(as.Lhs) == len(as.Rhs) {
 			for i, l := range as.Lhs {
@@ -372,6 +390,129 @@ func (rv *resolver) strd(e ast.Expr, depth int) string {
 	return stripSpaces(types.ExprString(e))
 }
 
+// importHelperGuards: a dominating fact `ok` (or `!ok` false) where `v, ok := helper(args)` stands for
+// everything the helper established before it returned ok=true: each guard clause of the helper that
+// returns ok=false contributes its negated condition (parameters replaced by the arguments), and v
+// stands for what the helper returns with ok=true. This makes "the name checks moved into a helper"
+// read like the checks written in place.
+func importHelperGuards(p *core.Program, fi *core.FuncInfo, rv *resolver, atoms []condAtom) []condAtom {
+	info := fi.Pkg.TypesInfo
+	out := append([]condAtom{}, atoms...)
+	for _, a := range atoms {
+		id, ok := ast.Unparen(a.E).(*ast.Ident)
+		if !ok || !a.V {
+			continue
+		}
+		obj := info.ObjectOf(id)
+		// find `..., ok := f(args)`
+		var call *ast.CallExpr
+		var lhs []ast.Expr
+		idx := -1
+		ast.Inspect(fi.Decl.Body, func(n ast.Node) bool {
+			as, isAs := n.(*ast.AssignStmt)
+			if !isAs || len(as.Rhs) != 1 || len(as.Lhs) < 2 {
+				return true
+			}
+			for i, l := range as.Lhs {
+				if lid, isId := l.(*ast.Ident); isId && info.ObjectOf(lid) == obj {
+					if c, isCall := ast.Unparen(as.Rhs[0]).(*ast.CallExpr); isCall {
+						call, lhs, idx = c, as.Lhs, i
+					}
+				}
+			}
+			return true
+		})
+		if call == nil {
+			continue
+		}
+		in := newInliner(p, fi, nil)
+		cfi, repl := in.callee(call)
+		if cfi == nil {
+			continue
+		}
+		rv.extra = append(rv.extra, cfi.Decl.Body)
+		// named results
+		var resNames []types.Object
+		if cfi.Decl.Type.Results != nil {
+			for _, f := range cfi.Decl.Type.Results.List {
+				for _, nm := range f.Names {
+					resNames = append(resNames, info.Defs[nm])
+				}
+			}
+		}
+		isFalse := func(e ast.Expr) bool {
+			tv, ok := info.Types[e]
+			return ok && tv.Value != nil && tv.Value.ExactString() == "false"
+		}
+		isTrue := func(e ast.Expr) bool {
+			tv, ok := info.Types[e]
+			return ok && tv.Value != nil && tv.Value.ExactString() == "true"
+		}
+		for _, s := range cfi.Decl.Body.List {
+			switch v := s.(type) {
+			case *ast.IfStmt:
+				if v.Else != nil || len(v.Body.List) == 0 {
+					continue
+				}
+				rs, isRet := v.Body.List[len(v.Body.List)-1].(*ast.ReturnStmt)
+				if !isRet || idx >= len(rs.Results) || !isFalse(rs.Results[idx]) {
+					continue
+				}
+				cond, _ := paths.Subst(info, v.Cond, repl).(ast.Expr)
+				// split like dominatingAtoms does: the guard was false
+				var split func(e ast.Expr, val bool)
+				split = func(e ast.Expr, val bool) {
+					e = ast.Unparen(e)
+					switch x := e.(type) {
+					case *ast.UnaryExpr:
+						if x.Op == token.NOT {
+							split(x.X, !val)
+							return
+						}
+					case *ast.BinaryExpr:
+						if (x.Op == token.LAND && val) || (x.Op == token.LOR && !val) {
+							split(x.X, val)
+							split(x.Y, val)
+							return
+						}
+						if x.Op == token.LAND || x.Op == token.LOR {
+							return
+						}
+					}
+					out = append(out, condAtom{e, val})
+				}
+				split(cond, false)
+			case *ast.ReturnStmt:
+				if idx < len(v.Results) && isTrue(v.Results[idx]) {
+					for i, l := range lhs {
+						if i == idx || i >= len(v.Results) {
+							continue
+						}
+						lid, isId := l.(*ast.Ident)
+						if !isId {
+							continue
+						}
+						val, _ := paths.Subst(info, v.Results[i], repl).(ast.Expr)
+						if rv.over == nil {
+							rv.over = map[types.Object]ast.Expr{}
+						}
+						rv.over[info.ObjectOf(lid)] = val
+					}
+				}
+			}
+		}
+		// params inside the helper's own locals' definitions (x := strings.LastIndex(name, ".")) read as the arguments
+		for po, arg := range repl {
+			if rv.over == nil {
+				rv.over = map[types.Object]ast.Expr{}
+			}
+			rv.over[po] = arg
+		}
+		_ = resNames
+	}
+	return out
+}
+
 func c17Retention(p *core.Program, r *core.Report) {
 	pk := p.Pkg("logger/logfile")
 	if pk == nil {
@@ -394,7 +535,7 @@ func c17Retention(p *core.Program, r *core.Report) {
 				return true
 			}
 			found++
-			atoms := dominatingAtoms(fi, call)
+			atoms := importHelperGuards(p, fi, rv, dominatingAtoms(fi, call))
 			// facts in canonical, name-free spelling
 			var facts []string
 			for _, a := range atoms {
